@@ -3,7 +3,7 @@
    t: command template; env: the command's Env (values the server passes); base: the process environment;
    strings are lists of byte values and every value ranges over all byte strings. *)
 From Coq Require Import List ZArith Bool.
-Require Import MTX.Model.C21_ExtCmd MTX.Proofs.C21_ExtCmd.
+Require Import MTX.Model.C21_ExtCmd MTX.Proofs.C21_ExtCmd MTX.Model.C21_HookEnv MTX.Proofs.C21_HookEnv.
 Import ListNotations.
 Local Open Scope Z_scope.
 
@@ -104,6 +104,57 @@ Theorem C21_split_single_quoted : forall w,
   Forall (fun c => c <> 39) w -> shell_split (39 :: w ++ [39]) = inr [w].
 Proof. exact shell_split_single_quoted. Qed.
 Print Assumptions C21_split_single_quoted.
+
+(* ---- the callers of the launcher: the environment is built when the event happens, the command reads it
+   later (Model/C21_HookEnv.v). tr ranges over ALL executions: the caller's steps (SNew = ExternalCmdEnv(),
+   SSet = env[k] = v, SStart = cmd.Start()) with the commands' reads (SRead) inserted anywhere. ---- *)
+
+(* A call site that never writes a map once a command holds it: every read of every command, however late,
+   returns exactly what the map held when the command was started. *)
+Theorem C21_hook_env_read_later_is_isolated : forall tr,
+  disciplined hinit tr = true -> hrun hinit tr = hrun_handed hinit tr.
+Proof. exact reads_see_what_was_handed_init. Qed.
+Print Assumptions C21_hook_env_read_later_is_isolated.
+
+(* The code's pattern (path.go segment hooks, setOnline/onDemand/..., the protocol servers: one
+   ExternalCmdEnv() per event) keeps that discipline for all events and all interleavings... *)
+Theorem C21_hook_env_per_event_disciplined : forall evs tr,
+  caller_of tr = per_event 0 evs -> disciplined hinit tr = true.
+Proof. exact per_event_disciplined. Qed.
+Print Assumptions C21_hook_env_per_event_disciplined.
+
+(* ...so each of its commands reads what it was handed... *)
+Theorem C21_hook_env_per_event_isolated : forall evs tr,
+  caller_of tr = per_event 0 evs -> hrun hinit tr = hrun_handed hinit tr.
+Proof. exact per_event_isolated. Qed.
+Print Assumptions C21_hook_env_per_event_isolated.
+
+(* ...and what command c was handed is exactly the values of event c: ExternalCmdEnv() of that moment with the
+   call site's additions for that event. *)
+Theorem C21_hook_env_per_event_values : forall evs tr c e,
+  caller_of tr = per_event 0 evs -> In (c, e) (hrun hinit tr) ->
+  exists ev, nth_error evs c = Some ev /\ e = intended ev.
+Proof. exact per_event_values. Qed.
+Print Assumptions C21_hook_env_per_event_values.
+
+(* One map built once and rewritten by every event (the hoisted variant): in the recorder's rotation the
+   completion hook of segment 5 reads segment 6's values when its routine runs after the next callback. *)
+Theorem C21_hook_env_shared_map_refuted :
+  exists tr, caller_of tr = shared_map [] [ev_complete5; ev_create6] /\
+             In (0%nat, intended ev_create6) (hrun hinit tr) /\
+             intended ev_create6 <> intended ev_complete5 /\
+             disciplined hinit tr = false.
+Proof. exact shared_map_refuted. Qed.
+Print Assumptions C21_hook_env_shared_map_refuted.
+
+(* non-vacuity: the same two events through the per-event call site, reads as late as possible and in between *)
+Example C21_example_hook_env :
+  hrun hinit (reads_last (per_event 0 [ev_complete5; ev_create6]) 2)
+    = [(0%nat, intended ev_complete5); (1%nat, intended ev_create6)]
+  /\ hrun hinit [SNew []; SSet 0 k_seg [53]; SStart 0; SNew []; SRead 0; SSet 1 k_seg [54]; SStart 1; SRead 0; SRead 1]
+    = [(0%nat, intended ev_complete5); (0%nat, intended ev_complete5); (1%nat, intended ev_create6)]
+  /\ disciplined hinit (reads_last (per_event 0 [ev_complete5; ev_create6]) 2) = true.
+Proof. vm_compute. repeat split. Qed.
 
 (* non-vacuity *)
 Example C21_example_values :
